@@ -107,6 +107,60 @@ Proof. exact (fun ops => bbolt_live_view_proved ops ([], 0) bb_init R_init). Qed
 Theorem agrees_implies_satisfies : forall t, Forall cc_ok_op (t_ops t) -> agrees t = true -> satisfies t = true.
 Proof. exact agrees_implies_satisfies_proved. Qed.
 
+(* ===== batch reads agree with point reads, on every backend model, TTL rows included ===== *)
+
+(* At every state of the reference storage and at every state of the bbolt model, item i of a
+   GetBatch is exactly what a Get of the i-th key answers at that state (found flag and value).  For
+   a row written with a TTL the two models answer differently from each other once it has expired
+   (the reference and mem hide it, bbolt shows it until its cleaner has run; the interface leaves
+   that open) - but each of them answers alike through GetBatch and through Get. *)
+Definition batch_item (out : sout) (i : nat) : option sout :=
+  match out with RBatch vs => option_map RGet (nth_error vs i) | _ => None end.
+
+Theorem batch_reads_agree_with_point_reads :
+  (forall (s : sstate) pk ccs i cc, nth_error ccs i = Some cc ->
+     batch_item (snd (spec_step s (OGetBatch pk ccs))) i = Some (snd (spec_step s (OGet pk cc)))) /\
+  (forall (b : bb) pk ccs i cc, nth_error ccs i = Some cc ->
+     batch_item (snd (bb_step b (OGetBatch pk ccs))) i = Some (snd (bb_step b (OGet pk cc)))).
+Proof.
+  split; intros s pk ccs i cc H.
+  - rewrite spec_batch_point, spec_get_point. cbn. rewrite nth_error_map, H. reflexivity.
+  - rewrite bb_batch_point, bb_get_point. cbn. rewrite nth_error_map, H. reflexivity.
+Qed.
+
+(* no read operation (Get, GetBatch, Read, TTLGet, TTLRead, QueryTTL) changes the state of either model *)
+Theorem reads_change_nothing :
+  (forall (s : sstate) o, is_read o = true -> fst (spec_step s o) = s) /\
+  (forall (b : bb) o, is_read o = true -> fst (bb_step b o) = b).
+Proof. split; [exact spec_read_keeps_state|exact bb_read_keeps_state]. Qed.
+
+(* hence the oracle clause `batch_point` (a Get and a GetBatch item for the same key with only read
+   operations between them carry the same answer) holds of every history of either model, from
+   every state *)
+Theorem batch_point_clause_holds_of_both_models : forall ops,
+  (forall s, batch_point ops (run_spec s ops) = true) /\ (forall b, batch_point ops (run_bb b ops) = true).
+Proof. intros ops. split; intros x; [apply spec_batch_point_proved|apply bb_batch_point_proved]. Qed.
+
+(* non-vacuity: a row with a 1 s TTL, read 2 s later (expired, cleaner not yet run) through GetBatch
+   and Get: the reference hides it from both, the bbolt model shows it to both; a mem history in which
+   GetBatch still shows the row while Get hides it is accepted by the reference clause alone (both
+   outputs are left open) and rejected by `satisfies`; one write in between lifts the obligation *)
+Example batch_point_nonvacuous :
+  let pk := [97%N] in let cc := [1%N] in let v := [7%N] in
+  let ops := [OIns pk cc v 1; OAdvance 2000; OGetBatch pk [[2%N]; cc]; OTTLRead pk [] []; OGet pk cc] in
+  run_spec ([], 0) ops = [RBool true; RUnit; RBatch [None; None]; RRows []; RGet None] /\
+  run_bb bb_init ops = [RBool true; RUnit; RBatch [None; Some v]; RRows []; RGet (Some v)] /\
+  satisfies (mkTrace Mem ops (run_spec ([], 0) ops)) = true /\
+  satisfies (mkTrace Bbolt ops (run_bb bb_init ops)) = true /\
+  (let bad := [RBool true; RUnit; RBatch [None; Some v]; RRows []; RGet None] in
+   satisfies_from ([], 0) ops bad = true /\ satisfies (mkTrace Mem ops bad) = false /\
+   violations_at (mkTrace Mem ops bad) = [4%N]) /\
+  (let ops' := [OIns pk cc v 1; OAdvance 2000; OGet pk cc; OPut pk [2%N] v; OGetBatch pk [cc]] in
+   satisfies (mkTrace Mem ops' [RBool true; RUnit; RGet None; RUnit; RBatch [Some v]]) = true /\
+   satisfies (mkTrace Mem [OIns pk cc v 1; OAdvance 2000; OGet pk cc; OQueryTTL pk cc; OGetBatch pk [cc]]
+                [RBool true; RUnit; RGet None; RTTL None; RBatch [Some v]]) = false).
+Proof. cbn zeta. repeat split; vm_compute; reflexivity. Qed.
+
 (* the restriction to clustering columns other than {0x00} is necessary: known finding F2 *)
 Example bbolt_null_key_refuted :
   exists ops, run_bb bb_init ops <> run_spec ([], 0) ops /\ Forall point_op ops.
@@ -169,3 +223,6 @@ Print Assumptions bbolt_refines_reference_partial.
 Print Assumptions concurrent_conditional_inserts_have_one_winner.
 Print Assumptions bbolt_live_view.
 Print Assumptions agrees_implies_satisfies.
+Print Assumptions batch_reads_agree_with_point_reads.
+Print Assumptions reads_change_nothing.
+Print Assumptions batch_point_clause_holds_of_both_models.
